@@ -783,7 +783,7 @@ def run(run: Run):
     except Exception as e:
         run.add_broken('gc-probe', f'{type(e).__name__}: {e}')
 
-    nhist = int(os.environ.get("VERIF_C07_N", 0)) or (110 if run.tier == "quick" else 900)   # env override: development aid for mutant runs
+    nhist = int(os.environ.get("VERIF_C07_N", 0)) or (110 if run.tier == "quick" else 600)   # env override: development aid for mutant runs
     cases = []
     pairs_paths, pairs_terms = {}, {}
     new_keys = {}
